@@ -825,3 +825,50 @@ impl ProgramDe {
         }
     }
 }
+
+
+/// Machinery self-test (not a property check): every outcome that real, free-running OS threads produce for a
+/// program must be among the outcomes the scheduler's *unbounded* exploration of that program found. A real outcome
+/// outside the explored set would mean the hook layer does not see every interleaving.
+pub fn validate_scheduler(rounds: usize) -> i32 {
+    let alpha = thread_alphabet();
+    let mut wide = alpha.clone();
+    wide.extend([COp::AddIce, COp::Amend(1, 0), COp::MoveVia(2, 1), COp::AmendVia(1, 1, 2)]);
+    let programs = programs_1op(2, &[Book::B1, Book::B2, Book::B3, Book::B7], &wide);
+    let mut bad = 0u64;
+    let mut total_real = 0u64;
+    let mut seen_real = 0u64;
+    let mut explored = 0u64;
+    let threads = crate::seq_checks::threads();
+    for (i, p) in programs.iter().enumerate() {
+        let cfg = ExploreCfg {
+            bound: None,
+            exec: ExecCfg { yield_stats: false, yield_counter: false, max_steps: 4000 },
+            wall_cap: Duration::from_secs(120),
+            threads,
+            want_c14: false,
+        };
+        let r = explore(std::slice::from_ref(p), &cfg);
+        if r.capped.is_some() {
+            continue;
+        }
+        explored += r.outcome_set.len() as u64;
+        let mut real = std::collections::HashSet::new();
+        for _ in 0..rounds {
+            real.insert(run_real_threads(p));
+            total_real += 1;
+        }
+        seen_real += real.len() as u64;
+        for h in &real {
+            if !r.outcome_set.contains(h) {
+                bad += 1;
+                println!("OUTSIDE: program {} produced an outcome under real threads that the exploration ({} schedules, {} outcomes) did not find", p.describe(), r.executions, r.outcome_set.len());
+            }
+        }
+        if i % 40 == 0 {
+            println!("  validated {}/{} programs ...", i, programs.len());
+        }
+    }
+    println!("validate-sched: {} programs, {} real executions, {} distinct real outcomes, all inside the {} explored outcomes: {}", programs.len(), total_real, seen_real, explored, bad == 0);
+    if bad == 0 { 0 } else { 2 }
+}
